@@ -623,7 +623,7 @@ func TestVariableModulus(t *testing.T) {
 	for _, m := range []struct {
 		mode string
 		n    int
-	}{{"vengine", ev.N(120, 6000)}, {"vcompiled", ev.N(20, 800)}, {"vadv", ev.N(40, 1500)}} {
+	}{{"vengine", ev.N(120, 6000)}, {"vcompiled", ev.N(20, 800)}, {"vadv", ev.N(30, 1500)}} {
 		g := genVCase(m.mode, tierNatives())
 		mode := m.mode
 		rec.Check(t, mode, m.n, func(rt *rapid.T) {
